@@ -21,3 +21,8 @@ open GlueVerif.C10
 #print axioms hist_bin_top
 #print axioms hist_perbin_partial
 #print axioms F10_witness
+#print axioms stat_no_inplace_write
+#print axioms stat_heap_refines_pure
+#print axioms stat_sequence_independent
+#print axioms stat_sequence_operands_unchanged
+#print axioms seq_alias_witness
